@@ -3,13 +3,13 @@
 HOOK_COMMITS = ["c4c2ecd", "2f67f21", "e5d0013"]
 
 ENGINES = [
-    {"name": "tlc", "path": "/verif/lib/vlib.py", "serves_properties": ["C01", "C02", "C03", "C05", "C06", "C12"],
+    {"name": "tlc", "path": "/verif/lib/vlib.py", "serves_properties": ["C01", "C02", "C03", "C05", "C06", "C12", "C18"],
      "kind_free_text": "TLC runner (exhaustive, simulation), TLA+ value parser, evidence writer"},
     {"name": "psrun", "path": "/verif/lib/psprops.py", "serves_properties": ["C01", "C02", "C03", "C06"],
      "kind_free_text": "abstract programs (catalogue + seeded generator) -> MroSem table by TLC -> real pipestances under forced schedules -> PsTrace monitors by TLC"},
     {"name": "procdrv", "path": "/verif/lib/procdrv.py", "serves_properties": ["C05"],
      "kind_free_text": "real mrp/mrjob (tag verif) + table-driven vstage; SIGKILL/SIGTERM/SIGINT at the k-th effect; restart"},
-    {"name": "vh", "path": "/verif/harness", "serves_properties": ["C01", "C02", "C03", "C05", "C06", "C12"],
+    {"name": "vh", "path": "/verif/harness", "serves_properties": ["C01", "C02", "C03", "C05", "C06", "C12", "C18"],
      "kind_free_text": "Go conformance harness built with -tags verif against /repo's working tree"},
 ]
 
@@ -18,6 +18,11 @@ _RT_NOTE = ("programs: hand catalogue + fixed generated corpus (one mapped level
             "known findings (known_findings.json) are printed as KNOWN-FINDING")
 
 CHECKS = [
+    {"id": "C18", "engine": "tlc+vh",
+     "technique": "TLA+ model of the quoting function and of the POSIX double-quote reader; theorem checked by TLC on all short strings; every row replayed through the real function and the real /bin/sh",
+     "text": "ShQuote.tla states Quote as the code does it and ShRead as POSIX 2.2.3; TLC proves ShRead(Quote(s)) = s for all strings over a 23-class alphabet up to length 3 (specials up to 5) and emits the rows; each row is quoted by the real appendShellSafeQuote, evaluated by the real /bin/sh and compared with the original string; whole job scripts from RemoteJobManager.jobScript are executed with a probe command (argument, environment value, placeholder-looking value, path).",
+     "ref": "DESIGN.md 5 C18",
+     "note": "class alphabet with one representative per class; /bin/sh of the sandbox (dash); invalid UTF-8 bytes are a recorded finding pinned by an existing test"},
     {"id": "C01", "engine": "tlc+psrun+vh",
      "technique": "TLA+ reference semantics (MroSem) evaluated by TLC as oracle; real pipestance runs under forced schedules; TLC monitors on recorded traces",
      "text": "For every program of the corpus TLC evaluates spec/MroSem.tla (denotational MRO semantics) to the table of stage invocations with their arguments, chunk outputs and the top-level outputs; the real runtime executes the rendered program under seeded and adversarial schedules; each job compares the _args/_chunk_outs it reads with the table, and spec/PsTrace.tla (TLC) judges every StageBegin and the final outputs.",
